@@ -23,11 +23,13 @@ def factor_lines(package_dir, relative):
 NODES_PER_ROOT = {"atom_random_node_creator": 1, "dipole_random_node_creator": 2, "water_random_node_creator": 3}
 
 
-def scale_units(sections, package_dir, n_roots, set_out):
+def scale_units(sections, package_dir, n_roots, set_out, input_section="RandomInputHandler"):
     """Set the number of root nodes and give every tagger enough event handlers (a generous upper bound)."""
-    set_out.setdefault("RandomInputHandler", {})["number_of_root_nodes"] = str(n_roots)
-    creator = sections["RandomInputHandler"]["random_node_creator"]
-    per_root = NODES_PER_ROOT[creator]
+    set_out.setdefault(input_section, {})["number_of_root_nodes"] = str(n_roots)
+    if input_section == "RandomInputHandler":
+        per_root = NODES_PER_ROOT[sections["RandomInputHandler"]["random_node_creator"]]
+    else:
+        per_root = int(sections[input_section].get("nodes_per_root_node", "1"))
     taggers = scenario_module.tagger_sections(sections)
     factor_file = sections.get("FactorTypeMaps", {}).get("filename")
     lines = factor_lines(package_dir, factor_file) if factor_file else []
@@ -75,6 +77,15 @@ FAMILIES = {
     "water_pi": {"base": "2018_JCP_149_064113/water/coulomb_power_bounded_lj_inverted.ini", "n": (2, 5), "cost": 2},
     "water_one": {"base": "2018_JCP_149_064113/water/single_molecule.ini", "n": (1, 1), "cost": 1},
     "hdd_one": {"base": "hard_disk_dipoles/single_hard_disk_dipole.ini", "n": (1, 1), "cost": 1},
+    # harness-built systems (harness_bases.py)
+    "soft": {"base": "harness:soft_spheres", "n": (2, 10), "cost": 1},
+    "lj": {"base": "harness:lj_atoms", "n": (2, 8), "cost": 1},
+    "hard_spheres": {"base": "harness:hard_spheres", "n": (2, 8), "cost": 1, "lattice": True, "chain_cap": True},
+    "hard_disks": {"base": "harness:hard_disks", "n": (2, 9), "cost": 1, "lattice": True, "chain_cap": True},
+    "hdd": {"base": "harness:hard_disk_dipoles", "n": (9, 9), "cost": 2, "lattice": True, "fixed_n": True,
+            "chain_cap": True},
+    "hdd_cells": {"base": "harness:hard_disk_dipoles_cells", "n": (9, 9), "cost": 2, "lattice": True,
+                  "fixed_n": True, "chain_cap": True},
 }
 
 
@@ -86,18 +97,19 @@ def generate(rng, family, package_dir, events=2000, vary=True, shipped_n=False):
     """Return a scenario of the given family with knobs drawn from ``rng``."""
     spec = FAMILIES[family]
     base = spec["base"]
-    sections = scenario_module.load_ini(package_dir, base)
+    sections = scenario_module.base_sections(package_dir, base)
     set_out = {}
     for section, options in spec.get("cheap", {}).items():
         if section in sections:
             set_out.setdefault(section, {}).update(options)
     lo, hi = spec["n"]
-    if shipped_n or not vary:
-        n = int(sections["RandomInputHandler"]["number_of_root_nodes"])
+    input_section = "LatticeInputHandler" if spec.get("lattice") else "RandomInputHandler"
+    if shipped_n or not vary or spec.get("fixed_n"):
+        n = int(sections[input_section]["number_of_root_nodes"])
     else:
         n = rng.randint(lo, hi)
-    if n != int(sections["RandomInputHandler"]["number_of_root_nodes"]):
-        scale_units(sections, package_dir, n, set_out)
+    if n != int(sections[input_section]["number_of_root_nodes"]):
+        scale_units(sections, package_dir, n, set_out, input_section)
     if vary:
         # scheduler
         if rng.random() < 0.5:
@@ -111,7 +123,8 @@ def generate(rng, family, package_dir, events=2000, vary=True, shipped_n=False):
                 set_out.setdefault(section, {})["sampling_interval"] = repr(value)
         for section in find_section_with(sections, "chain_time"):
             if rng.random() < 0.7:
-                value = float(sections[section]["chain_time"]) * rng.choice([0.1, 0.37, 1.0, 3.1])
+                value = float(sections[section]["chain_time"]) * rng.choice(
+                    [0.1, 0.37, 1.0] if spec.get("chain_cap") else [0.1, 0.37, 1.0, 3.1])
                 set_out.setdefault(section, {})["chain_time"] = repr(value)
         for section in find_section_with(sections, "chain_length"):
             if rng.random() < 0.5:
